@@ -11,6 +11,7 @@ def register(db):
     register_any_attribute(db)
     register_wrapper_scope(db)
     register_find_by_namespace(db)
+    register_wrapper_child(db)
     P = ["C09"]
     db.add(Contract(
         "xsdata.formats.dataclass.parsers.utils:ParserUtils.normalize_content",
@@ -305,4 +306,31 @@ def register_find_by_namespace(db):
         raises={}, returns="u:XmlVar|None",
         loops=[Loop(invariants=[NONE_BEFORE.format(n="_i")], header="vars")],
         properties=["C09", "C10"],
+    ))
+
+
+def register_wrapper_child(db):
+    """WrapperNode.child: the children of a wrapper element are bound by the parent model element - with *their own*
+    attributes, prefix map and position, under the wrapper's name (so that the item field of that wrapper is chosen)."""
+    from .c10_strictness import element_node, NODES
+    WN = f"{NODES}.wrapper:WrapperNode"
+    db.add(Contract(f"{NODES}.element:ElementNode.child", variant="call-view", trusted=True, call_default=True, params={},
+                    returns="u:XmlNode", raises={"ParserError": True, "ConverterError": True, "XmlContextError": True},
+                    note="call-site view (the function itself is verified under C10 / C15)"))
+
+    def wrapper_node(mk, base):
+        parent = element_node(mk, "parent")
+        mk.exports["the_parent"] = parent
+        return mk.obj(WN, {"parent": lambda m, b: parent, "qname": "str", "ns_map": "dict[str|None,str]"}) if False else \
+            mk.st.alloc(__import__("pyvc.values", fromlist=["Obj"]).Obj(WN, {"parent": parent, "qname": mk.value("str", "wrapper_qname"),
+                                                                            "ns_map": mk.value("dict[str|None,str]", "wrapper_map")}))
+
+    CH = "ElementNode.child"
+    db.add(Contract(
+        f"{WN}.child", params={"self": wrapper_node, "qname": "str", "attrs": "opaque:PyDict", "ns_map": "opaque:PyDict", "position": "int"},
+        ensures=[("delegated-once-to-the-parent-under-the-wrapper-name",
+                  f"called('{CH}') == 1 and call_arg('{CH}', 0) is the_parent and call_arg('{CH}', 1) == qname and call_arg('{CH}', 2) is attrs and "
+                  f"call_arg('{CH}', 3) is ns_map and call_arg('{CH}', 4) == position and call_arg('{CH}', 5) == self.qname"),
+                 ("the-node-the-parent-built-is-returned", f"result is call_result('{CH}')")],
+        raises={"ParserError": True, "ConverterError": True, "XmlContextError": True}, properties=["C09", "C10"],
     ))
